@@ -14,6 +14,7 @@ import IocProofs.Lemmas.M2IsCode
 import IocProofs.Lemmas.SemMisc
 import IocProofs.Lemmas.SemDiscover
 import IocProofs.Lemmas.SemOptions
+import IocProofs.Lemmas.SemDefReg
 namespace Ioc.C06
 open Ioc Ioc.Tag Ioc.Match
 
@@ -388,5 +389,63 @@ theorem C06_funcName_is_code (p : Match.Prov) (fn : String)
   exact this p.meths hinj
 
 end options
+
+/-! ### the REGENERATED definition registry (RegisterMeta, GetMetas, GetMetaByName, GetMetaOrRegister)
+
+    The registry's map is the list `entries` in the order in which `Range` enumerates it.  `GetMetas` hands a function
+    literal to `Range` that APPENDS TO A CAPTURED VARIABLE (statement form `hcallS` of MiniGo: capture by reference). -/
+section registry
+open Ioc.Go Ioc.Sem
+variable (nameOf : Nat → String) (accept : Nat → Bool)
+
+/-- the definitions the options accept, in enumeration order (what `Sem.discFn` takes as the meaning of `GetMetas`) -/
+theorem C06_code_GetMetas (opts : Go.Val) (w : DRW) :
+    run (dregPrims nameOf accept) Progs.dreg_GetMetas [opts] w =
+      some (encMetas ((w.entries.filter (fun e => accept e.2)).map (·.2)), w) :=
+  getMetas_sem nameOf accept opts w
+
+/-- registering replaces by name (an existing name keeps its place in the enumeration), a lookup by name is the entry's
+    definition or nil, get-or-register returns the registered definition untouched or registers a fresh, named one -/
+theorem C06_code_registry_by_name (i c : Nat) (n : String) (w : DRW) :
+    run (dregPrims nameOf accept) Progs.dreg_RegisterMeta [.ref i 0] w =
+      some (.tuple [], { w with entries := upsert (nameOf i) i w.entries }) ∧
+    run (dregPrims nameOf accept) Progs.dreg_GetMetaByName [.str n] w =
+      some (match lookupE n w.entries with | some i => .ref i 0 | none => .nil, w) ∧
+    run (dregPrims nameOf accept) Progs.dreg_GetMetaOrRegister [.str n, .ref c 50] w =
+      some (match lookupE n w.entries with
+            | some i => (.ref i 0, w)
+            | none => (.ref c 0, { entries := upsert n c w.entries, named := w.named ++ [(c, n)] })) :=
+  ⟨registerMeta_sem nameOf accept i w, getMetaByName_sem nameOf accept n w, getMetaOrRegister_sem nameOf accept n c w⟩
+
+/-- what was registered under a name is what a lookup by that name finds, and no other name is disturbed -/
+theorem C06_registry_upsert_lookup (k k' : String) (v : Nat) (l : List (String × Nat)) :
+    lookupE k (upsert k v l) = some v ∧ (k' ≠ k → lookupE k' (upsert k v l) = lookupE k' l) := by
+  constructor
+  · induction l with
+    | nil => simp [upsert, lookupE]
+    | cons e rest ih =>
+      obtain ⟨a, b⟩ := e
+      by_cases h : a = k
+      · simp [upsert, lookupE, h]
+      · have h' : (a == k) = false := by simpa using h
+        simp only [upsert, h, if_false, lookupE, List.find?_cons, h']
+        exact ih
+  · intro hne
+    induction l with
+    | nil =>
+      have : (k == k') = false := by simpa using Ne.symm hne
+      simp [upsert, lookupE, this]
+    | cons e rest ih =>
+      obtain ⟨a, b⟩ := e
+      by_cases h : a = k
+      · subst h
+        have : (a == k') = false := by simpa using Ne.symm hne
+        simp [upsert, lookupE, this]
+      · simp only [upsert, h, if_false, lookupE, List.find?_cons]
+        cases hak : (a == k')
+        · exact ih
+        · rfl
+
+end registry
 
 end Ioc.C06
